@@ -38,7 +38,9 @@ def run(res, replay=None):
         klass = T.known_class(inp)
         for j, f in enumerate(vor["faces"]):
             if not (f["area"] >= -tol["area_tol"]) or any(x != x for x in f["centroid"]):
-                res.violation("C04:negative-area" + geo.mismatch_class(rec), f"face {j} (left {f['left']}, right {f['right']}) has area {f['area']} / centroid {f['centroid']}", dict(ctx, face=j))
+                # the wall face of a generator lying exactly on that wall: recorded finding K1 (orientation sign of zero-height tetrahedra)
+                k1 = (f["right"] is None and not inp["periodic"] and bool(geo.walls_of_generator(rec, f["left"])))
+                res.violation("wall-face-of-on-wall-generator" if k1 else "C04:negative-area" + geo.mismatch_class(rec), f"face {j} (left {f['left']}, right {f['right']}) has area {f['area']} / centroid {f['centroid']}", dict(ctx, face=j))
                 break
             n = f["normal"]
             g = gens[f["left"]]
